@@ -192,6 +192,24 @@ CLAIMED["C10"] = dict(
          "computes is C09's correspondence. Trusted: harness c09.c, driver.",
     ref="6 C10")
 
+CLAIMED["C12"] = dict(
+    technique="T-gen (the compiled functions run on every single code point under each locale; tables regenerated every run) + kernel-checked equality with the vendored UCD + Lean model of the context logic + Unicode default conversion as specification + T-corr",
+    text="PROOF for the context-free part and for ordinary words, PARTIAL (known findings) for the context rules. Theorems: for every "
+         "code point and each locale the library distinguishes ('' / tr+az / lt) the full upper, lower and title mapping applied to "
+         "a code point on its own equals the Unicode full mapping (upper1_eq / lower1_eq / title1_eq, from kernel-checked equality of "
+         "the regenerated tables with UCD SpecialCasing); for every string without context-sensitive code points, of any length and "
+         "with any number of expansions, upper- and lower-casing equal the Unicode default conversion (upper_plain, lower_plain); in "
+         "ordinary words (letters on which the library's letter test agrees with Cased - Greek and Latin do, checked - and no "
+         "case-ignorable characters or marks) capital sigma becomes final sigma exactly in word-final position, for every locale "
+         "(lower_ordinary_words); capitalisation changes only the first code point and is its Unicode titlecase mapping "
+         "(capitalize_only_first, capitalize_eq_spec); results consist of scalar values (upper1_scalar, tables_scalar).",
+    note="Context rules (Final_Sigma across case-ignorable characters or other scripts, More_Above, After_Soft_Dotted, Before_Dot / "
+         "After_I across intervening marks) and the U+0345 reordering deviate from the Unicode default conversion; each is a KNOWN "
+         "FINDING (known_findings.json, 5 families) exhibited by `decide`d witnesses in Props/C12.lean and classified by the oracle: a "
+         "deviation that is not exactly one of these families is reported as a new violation. Trusted: extractor c12_extract.c, the "
+         "vendored UCD, harness c12.c, driver.",
+    ref="6 C12")
+
 PENDING = {}
 
 def main():
